@@ -22,6 +22,7 @@ import (
 	"github.com/cosmos/cosmos-sdk/baseapp"
 	"github.com/cosmos/cosmos-sdk/client/flags"
 	"github.com/cosmos/cosmos-sdk/server"
+	serverconfig "github.com/cosmos/cosmos-sdk/server/config"
 	simtestutil "github.com/cosmos/cosmos-sdk/testutil/sims"
 	sdk "github.com/cosmos/cosmos-sdk/types"
 	"github.com/cosmos/cosmos-sdk/version"
@@ -89,6 +90,32 @@ type msgKind struct {
 	url  string
 	mk   func() sdk.Msg
 	src  string // fixed / registry / near-miss
+}
+
+// the application as cmd/palomad's newApp builds it: base-app options from server.DefaultBaseappOptions(appOpts)
+// (a default app.toml with mempool.max-txs = maxTxs) plus optimistic execution, handed to app.New
+func newPalomadApp(maxTxs int) *palomaapp.App {
+	pcommon.SetupPalomaPrefixes()
+	version.Version = "v2.4.0"
+	dir, err := os.MkdirTemp("", "c19-palomad-*")
+	if err != nil {
+		panic(err)
+	}
+	cfg := serverconfig.DefaultConfig()
+	opts := simtestutil.AppOptionsMap{
+		flags.FlagHome:             dir,
+		flags.FlagChainID:          appChainID,
+		server.FlagPruning:         cfg.Pruning,
+		server.FlagMinGasPrices:    cfg.MinGasPrices,
+		server.FlagIAVLCacheSize:   cfg.IAVLCacheSize,
+		server.FlagQueryGasLimit:   cfg.QueryGasLimit,
+		server.FlagInvCheckPeriod:  0,
+		server.FlagMempoolMaxTxs:   maxTxs,
+		server.FlagInterBlockCache: cfg.InterBlockCache,
+	}
+	bopts := server.DefaultBaseappOptions(opts)
+	bopts = append(bopts, baseapp.SetOptimisticExecution())
+	return palomaapp.New(log.NewNopLogger(), dbm.NewMemDB(), nil, true, opts, bopts...)
 }
 
 func newApp() *palomaapp.App {
